@@ -2,6 +2,7 @@ package checks
 
 import (
 	"fmt"
+	"os"
 	"path/filepath"
 	"strings"
 	"time"
@@ -186,7 +187,7 @@ func genC15(cfg Config, ws *WorldSet, i, perWorld int) C15Case {
 			if r.Bool() {
 				present()
 			}
-			if iv.Log {
+			if fi, err := os.Stat("/dev/full"); iv.Log && err == nil && fi.Mode()&os.ModeCharDevice != 0 {
 				steps = append(steps, Step{Op: "symlink", Path: logPathFor(iv.OutPath), Data: []byte("/dev/full")})
 			}
 		case "output-dangling-link":
